@@ -22,6 +22,7 @@ package main
 
 import (
 	"context"
+	"encoding/base64"
 	"encoding/json"
 	"fmt"
 	"net/http"
@@ -727,6 +728,7 @@ type c11Cred struct {
 	kind   string
 	absent bool
 	val    string
+	basic  bool // the request also carries the network password as HTTP basic auth (what a relaying peer could do)
 }
 
 func c11Flip(s string, i int) string {
@@ -844,6 +846,10 @@ func (r *c11Run) sessReq(w *c11World, sh c11Shape, sp, state, spell string, c c1
 		q.hdr["X-Session-Auth"] = c.val
 		q.carried = []string{c.val}
 	}
+	if c.basic {
+		q.hdr["Authorization"] = "Basic " + base64.StdEncoding.EncodeToString([]byte("robustirc:"+vNetPassword))
+		q.carried = append(q.carried, vNetPassword)
+	}
 	return q
 }
 
@@ -932,6 +938,9 @@ func (r *c11Run) sessionUnit(hist, state, spell string) {
 		creds = append(creds, c11Cred{label: "secret of the deleted session D", kind: "the secret of a deleted session", val: w.D.Auth})
 	}
 	creds = append(creds, c11Cred{label: "the network password", kind: "the network password as secret", val: vNetPassword})
+	// the session secret is what counts on the session routes, whatever else the request presents
+	creds = append(creds, c11Cred{label: "header absent, network password as basic auth", kind: "no secret plus the network password (basic auth)", absent: true, basic: true})
+	creds = append(creds, c11Cred{label: "wrong secret, network password as basic auth", kind: "a wrong secret plus the network password (basic auth)", val: strings.Repeat("cd", 16), basic: true})
 
 	shapes := c11Shapes(w)
 	viol0 := r.violCount()
